@@ -75,7 +75,10 @@ fn session_event(s: &Session) -> Value {
             json!({"i": i + 1, "t": t, "k": p["k"], "o": p["o"], "id": p.get("id").cloned().unwrap_or(json!(-1)),
                    "sbn": p["sbn"], "esi": p["esi"], "B": p["B"], "A": p["A"], "len": p["len"], "size": bytes.len(),
                    "fti": p["fti"].get("L").is_some(), "fl": p["fti"].get("L").cloned().unwrap_or(json!(-1)),
-                   "sct": p["sct"].get("ms").is_some()})
+                   "sct": p["sct"].get("ms").is_some(),
+                   // for the mechanism specification: in-band CENC, source block length of the payload id, SCT in seconds
+                   "cencx": p.get("cenc").cloned().unwrap_or(json!(-1)), "sbl": p.get("sbl").cloned().unwrap_or(json!(-1)),
+                   "scts": p["sct"].get("ms").and_then(|m| m.as_i64()).map(|m| m.div_euclid(1000)).unwrap_or(0)})
         })
         .collect();
     let xml: Vec<Value> = s.events.iter().filter(|e| e["ev"] == "fdtxml").cloned().collect();
